@@ -617,8 +617,10 @@ DEPS = {
     "C04": [(("beyond/io/ccsds/omm.py", ["*"]), "a sibling of the anchored OPM / OEM modules: reads and writes epochs with the same helpers"),
             (("beyond/io/ccsds/tdm.py", ["*"]), "a sibling of the anchored OPM / OEM modules: reads and writes epochs with the same helpers"),
             (("beyond/io/horizon.py", ["*"]), "reads epochs of a declared time scale"),
-            (("beyond/frames/iau1980.py", ["*sideral", "*earth_orientation", "*rate"]), "reads the date in UT1 / TT"),
-            (("beyond/frames/iau2010.py", ["*sideral", "*earth_orientation", "*rate"]), "reads the date in UT1 / TT")],
+            (("beyond/frames/iau1980.py", ["*"]), "every model function takes its argument from the date in UT1 / TT"),
+            (("beyond/frames/iau2010.py", ["*"]), "every model function takes its argument from the date in UT1 / TT"),
+            (("beyond/env/jpl.py", ["JplPropagator.*", "Bsp.*", "get_orbit"]), "the kernels are evaluated at the julian date in TDB"),
+            (("beyond/utils/ltan.py", ["*"]), "sidereal time and Sun position of a date")],
     "C05": [(_DATE_ARITH, "the elapsed time of a propagation is a difference of Dates"),
             (_ORBIT_DISPATCH, "`Orbit.propagate` hands the date or the timedelta to the propagator"),
             (("beyond/propagators/base.py", ["*"]), "the analytical propagators inherit `propagate` / `iter` from it")],
